@@ -125,23 +125,79 @@ func runR13_1(c *Ctx, r *R) {
 				continue
 			}
 			bad := ""
-			check := func(v ssa.Value, what string) {
+			// value and count may travel together through pure moves before the count is tested: a conversion
+			// (uint64(v32)) and a join where both are merged in the same block, edge by edge (v, m = ... in every arm
+			// of a switch, `if m <= 0` behind it). The obligation then is on the merged count.
+			aliasOf := func(v, root ssa.Value) bool {
+				for i := 0; i < 4; i++ {
+					if v == root {
+						return true
+					}
+					switch x := v.(type) {
+					case *ssa.Convert:
+						v = x.X
+					case *ssa.ChangeType:
+						v = x.X
+					default:
+						return false
+					}
+				}
+				return false
+			}
+			seenV := map[ssa.Value]bool{}
+			var check func(v, cnt ssa.Value, isCnt bool, what string, depth int)
+			check = func(v, cnt ssa.Value, isCnt bool, what string, depth int) {
+				if seenV[v] || depth > 6 {
+					return
+				}
+				seenV[v] = true
 				for _, u := range users(v) {
-					if v == cnt && isComparison(u) {
+					if isCnt && isComparison(u) {
 						continue
 					}
 					if _, ok := u.(*ssa.DebugRef); ok {
+						continue
+					}
+					switch x := u.(type) {
+					case *ssa.Convert:
+						if isIntegerType(x.Type()) {
+							check(x, cnt, isCnt, what, depth+1)
+							continue
+						}
+					case *ssa.ChangeType:
+						check(x, cnt, isCnt, what, depth+1)
 						continue
 					}
 					blk := u.Block()
 					if phi, ok := u.(*ssa.Phi); ok {
 						// the use happens on the incoming edge
 						for k, e := range phi.Edges {
-							if e == v {
-								blk = phi.Block().Preds[k]
-								if lb, ok := lowerBoundAt(blk, cnt); !ok || lb < 1 {
-									bad = fmt.Sprintf("%s flows into a phi at %s without the count being proved >= 1", what, c.pos(phi.Pos()))
+							if e != v {
+								continue
+							}
+							if isCnt {
+								// the merged count carries the obligation on
+								check(phi, phi, true, what, depth+1)
+								continue
+							}
+							// the value: its companion is the phi of the same block that merges the count on the same edge
+							var comp *ssa.Phi
+							for _, ins := range phi.Block().Instrs {
+								p2, isPhi := ins.(*ssa.Phi)
+								if !isPhi {
+									break
 								}
+								if p2 != phi && k < len(p2.Edges) && aliasOf(p2.Edges[k], cnt) {
+									comp = p2
+								}
+							}
+							if comp != nil {
+								check(phi, comp, false, what, depth+1)
+								continue
+							}
+							blk = phi.Block().Preds[k]
+							if lb, ok := lowerBoundAt(blk, cnt); !ok || lb < 1 {
+								bad = fmt.Sprintf("%s flows into a phi at %s without the count being proved >= 1", what, c.pos(phi.Pos()))
 							}
 						}
 						continue
@@ -155,9 +211,9 @@ func runR13_1(c *Ctx, r *R) {
 					}
 				}
 			}
-			check(cnt, "the byte count")
+			check(cnt, cnt, true, "the byte count", 0)
 			if val != nil {
-				check(val, "the decoded value")
+				check(val, cnt, false, "the decoded value", 0)
 			}
 			if bad != "" {
 				r.Bad(key, cv.Pos(), "%s", bad)
